@@ -5502,8 +5502,16 @@ class Entity(object, metaclass=EntityMeta):
         assert obj._save_pos_ is not None, 'save_pos is None for %s object' % obj._status_
         assert not cache.saved_objects
         with cache.flush_disabled():
-            obj._before_save_() # should be inside flush_disabled to prevent infinite recursion
-                                # TODO: add to documentation that flush is disabled inside before_xxx hooks
+            objects = [ obj ]
+            for obj2 in objects:  # grows: newly created objects which obj2._save_() will insert first
+                obj2._before_save_() # should be inside flush_disabled to prevent infinite recursion
+                                     # TODO: add to documentation that flush is disabled inside before_xxx hooks
+                if obj2._status_ == 'created': attrs = obj2._attrs_with_columns_
+                elif obj2._status_ == 'modified': attrs = obj2._attrs_with_bit_(obj2._attrs_with_columns_, obj2._wbits_)
+                else: continue
+                for attr in attrs:
+                    val = obj2._vals_[attr] if attr.reverse else None
+                    if val is not None and val._status_ == 'created' and val not in objects: objects.append(val)
             obj._save_()
         cache.call_after_save_hooks()
     def _before_save_(obj):
